@@ -6,3 +6,12 @@
 pub mod map;
 pub mod ordered_set;
 pub mod regex_model;
+pub mod sorted;
+
+/// Stand-in for `rand::random::<u32>()`: the proof harness stores an arbitrary value here
+/// (Kani 0.68 cannot compile the SIMD code of the rand crate).
+pub static VERIF_RANDOM_U32: std::sync::atomic::AtomicU32 = std::sync::atomic::AtomicU32::new(0);
+
+pub fn random_u32() -> u32 {
+    VERIF_RANDOM_U32.load(std::sync::atomic::Ordering::Relaxed)
+}
